@@ -316,6 +316,32 @@ def run_stacking(case, ctx):
             if got.shape != exp.shape or not numpy.array_equal(got, exp):
                 ctx.violation(K + "transform-not-hstack/%s" % bname, "transform on %s: shape %r, hstack of the "
                               "members' outputs has %r" % (bname, got.shape, exp.shape), cfg=cfg)
+        # ---- a target given as one column (n, 1) - a valid multi-output target: members are trained as a direct fit
+        # would train them (shapes of coef_ / intercept_ / predict included)
+        if kind == "reg":
+            try:
+                ycol = y.reshape(-1, 1)
+                st2 = SkBaseTransformStacking([clone(M[n][0]()) for n in chosen], method)
+                numpy.random.seed(3)
+                st2.fit(X, ycol)
+                ctx.hit("stacking.column_target")
+                for n_, mem in zip(chosen, st2.models):
+                    base = mem.model if isinstance(mem, SkBaseTransformLearner) else mem
+                    d_ = clone(M[n_][0]())
+                    numpy.random.seed(3)
+                    d_.fit(X, ycol)
+                    fm = "transform" if hasattr(d_, "transform") and M[n_][1] == "tr" else method
+                    a, b = numpy.asarray(getattr(base, fm)(X[:7])), numpy.asarray(getattr(d_, fm)(X[:7]))
+                    sa = {k_: numpy.shape(v_) for k_, v_ in vars(base).items() if k_.endswith("_") and hasattr(v_, "shape")}
+                    sb = {k_: numpy.shape(v_) for k_, v_ in vars(d_).items() if k_.endswith("_") and hasattr(v_, "shape")}
+                    if a.shape != b.shape or sa != sb or not numpy.allclose(a, b, rtol=1e-12, atol=1e-12):
+                        ctx.violation(K + "not-trained-as-direct-fit/column-target", "with a target of shape (n, 1) the "
+                                      "member %s differs from a direct fit (predict %r vs %r, attribute shapes %r vs "
+                                      "%r)" % (n_, a.shape, b.shape, sorted(sa.items())[:3], sorted(sb.items())[:3]),
+                                      cfg=cfg)
+                        break
+            except Exception as e:
+                ctx.excluded("column target refused by a member: %s" % type(e).__name__)
         # ---- call sequence on the same stacking: refused transform, fit on other rows, transform
         X2, y2 = data(rng, kind, k=3 if kind == "clf" else None)
         try:
@@ -372,7 +398,15 @@ def run_transfer(case, ctx):
             K = "C15/transfer/"
             e = mk()
             numpy.random.seed(1)
-            e.fit(X, y) if kind != "tr" else e.fit(X)
+            # a third of the wrapped estimators were trained on a DataFrame (they carry feature_names_in_)
+            on_frame = (case["sub"] + len(name) + int(trainable) + 2 * int(copy_est)) % 3 == 0
+            cfg["wrapped_trained_on"] = "DataFrame" if on_frame else "ndarray"
+            Xfit = X
+            if on_frame:
+                import pandas
+                Xfit = pandas.DataFrame(X, columns=["f%d" % i for i in range(X.shape[1])])
+                ctx.cls("wrapped-trained-on-frame")
+            e.fit(Xfit, y) if kind != "tr" else e.fit(Xfit)
             fp0 = fingerprint(e)
             try:
                 tt = TransferTransformer(e, method=meth, copy_estimator=copy_est, trainable=trainable)
@@ -408,8 +442,18 @@ def run_transfer(case, ctx):
                         else:
                             ctx.check(tt.estimator_ is e, K + "no-copy-not-the-original",
                                       "copy_estimator=False but estimator_ is another object", cfg=cfg)
-                except AssertionError as ex:
+                except (AssertionError, TypeError) as ex:
                     ok = False
+                    if copy_est or not trainable:
+                        ctx.hit("transfer.original_untouched")
+                        if fingerprint(e) != fp0:
+                            ctx.violation(K + "original-modified/%s/refused-fit" % (
+                                "copy_estimator" if copy_est else "not-trainable"), "fit raised %s and the original "
+                                "estimator was modified all the same" % type(ex).__name__, cfg=cfg)
+                    if isinstance(ex, TypeError) and not (copy_est and step != "transform"):
+                        ctx.violation(K + "raised/TypeError", "%s during %s: %s" % (type(ex).__name__, step,
+                                                                                     str(ex)[:150]), cfg=cfg)
+                        break
                     if copy_est and step != "transform":
                         mech = "attribute-without-value-equality" if identity_eq_attrs(e) else "other"
                         ctx.violation("C15/transfer/fit/self-check-refuses-model/%s" % mech,
